@@ -471,6 +471,10 @@ func isErrorType(t types.Type) bool {
 func (u *Unit) checkPost(st *State, fr *frame, pos token.Pos) {
 	env := u.resultEnv(st, fr, u.fc, u.entryNames)
 	for i, c := range fr.spec.Ensures {
+		if u.fc != nil && u.fc.AssumeEnsures && u.lit == nil {
+			u.assumptions[fmt.Sprintf("ensures of %s assumed (trusted link to the ghost streams): %s", u.name, c.Text)] = true
+			continue
+		}
 		t := u.specBool(st, u.old, env, c.Expr, c)
 		name := fmt.Sprintf("ensures#%d", i+1)
 		u.oblige(st, name, "ensures", c.Props, t, pos, c.Text)
